@@ -17,7 +17,9 @@ def reads_field(fn, n, field):
     return [x for x in walk(n) if q.field_name(x) == field]
 
 
-def check(run):
+def ep_readers_rule(run):
+    """Reader table of channel::ep (shared with C13: what a socket reports about its peer comes from visible_ep, the field
+    the NAT rewrites; a report taken from the true endpoint disagrees with remote_endpoint() behind a NAT)."""
     fx = run.fx
     run.clause('reader table: channel::ep (true addresses) is read only by the index helpers, the capture call and the channel constructor path; user-visible peer endpoints come from visible_ep')
     allowed = {CH + '::self_idx': 'identity', CH + '::remote_idx': 'identity', T + '::send_packet': 'capture records true addresses (C19)', S + '::internal_connect': 'initialises the channel',
@@ -38,6 +40,11 @@ def check(run):
                           '%s reads the true endpoint channel::ep; behind a NAT this differs from what the peer can observe (visible_ep), so the two views of the peer disagree' % w)
     if len(readers) < 3:
         run.broke('channel::ep has only %d reader functions (4 confirmed by hand)' % len(readers))
+
+
+def check(run):
+    fx = run.fx
+    ep_readers_rule(run)
     re_ = fx.fn1(T + '::remote_endpoint', '(boost::system::error_code &) const')
     run.touch(re_)
     rets = [r for r in q.returns(re_) if r.get('e') is not None]
